@@ -2,10 +2,10 @@
    the order of object members (patches, anchor origin), applied to states that differ only in the
    member order of their documents and anchor origins, are both refused or yield states that again
    differ only so.  Together with Anchored.v: an accepted request and its anchored form denote
-   operations related this way (dedicated actions; see ComposerOrder.v for the restriction). *)
+   operations related this way (order_blind: patch lists without `test` operations; see ComposerOrderAll.v). *)
 From Coq Require Import ZArith NArith String Ascii List Bool Lia.
 From Sidetree Require Import Json.Json Json.JcsProps Json.JcsRoundTrip Sidetree.Protocol Sidetree.Window Sidetree.Composer Sidetree.Applier
-     Sidetree.JequivDecode Sidetree.ValidatorJequiv Sidetree.ComposerOrder.
+     Sidetree.JequivDecode Sidetree.ValidatorJequiv Sidetree.ComposerOrder Sidetree.JsonPatchOrder Sidetree.ComposerOrderAll.
 Import ListNotations.
 Open Scope string_scope.
 
@@ -39,7 +39,7 @@ Section Order.
                 try (match goal with H : objrel _ _ |- _ => apply H end).
 
   Theorem applier_member_order a a' rm rm' :
-    op_rel a a' -> rm_rel rm rm' -> Forall dedicated (v_patches (a_view a)) ->
+    op_rel a a' -> rm_rel rm rm' -> Forall order_blind (v_patches (a_view a)) ->
     opt_rm_rel (apply cfg apply_patches a rm) (apply cfg apply_patches a' rm').
   Proof.
     intros (Ety & Et & En & Ev & Ec & Ee & Hv) Hr D.
@@ -52,7 +52,7 @@ Section Order.
       destruct (v_parse_ok (a_view a)); cbn [negb]; [|exact I].
       destruct (v_delta_hash_ok (a_view a)); cbn [negb]; [|close].
       destruct (v_delta_valid (a_view a)); cbn [negb]; [|close].
-      pose proof (apply_patches_member_order _ _ [] [] objrel_nil V12 D) as H.
+      pose proof (apply_patches_member_order_all _ _ [] [] objrel_nil V12 D) as H.
       destruct (apply_patches [] (v_patches (a_view a))) as [x|], (apply_patches [] (v_patches (a_view a'))) as [x'|]; cbn in H; try tauto; close.
     - (* update *)
       unfold apply_update, in_win. rewrite <- V1, <- V2, <- V3, <- V5, <- V6, <- V10, <- V11, <- Et.
@@ -63,7 +63,7 @@ Section Order.
       destruct (v_sig_ok (a_view a)); cbn [negb]; [|exact I].
       destruct (v_delta_valid (a_view a)); cbn [negb]; [|exact I].
       destruct (verify_range_p cfg (v_from (a_view a)) (v_until (a_view a)) (a_time a)); cbn [negb]; [|close].
-      pose proof (apply_patches_member_order _ _ d d' R1 V12 D) as H.
+      pose proof (apply_patches_member_order_all _ _ d d' R1 V12 D) as H.
       destruct (apply_patches d (v_patches (a_view a))) as [x|], (apply_patches d' (v_patches (a_view a'))) as [x'|]; cbn in H; try tauto; close.
     - (* recover *)
       unfold apply_recover, in_win. rewrite <- V1, <- V2, <- V3, <- V5, <- V6, <- V10, <- V11, <- Et.
@@ -74,7 +74,7 @@ Section Order.
       destruct (v_delta_hash_ok (a_view a)); cbn [negb]; [|close].
       destruct (v_delta_valid (a_view a)); cbn [negb]; [|close].
       destruct (verify_range_p cfg (v_from (a_view a)) (v_until (a_view a)) (a_time a)); cbn [negb]; [|close].
-      pose proof (apply_patches_member_order _ _ [] [] objrel_nil V12 D) as H.
+      pose proof (apply_patches_member_order_all _ _ [] [] objrel_nil V12 D) as H.
       destruct (apply_patches [] (v_patches (a_view a))) as [x|], (apply_patches [] (v_patches (a_view a'))) as [x'|]; cbn in H; try tauto; close.
     - (* deactivate *)
       unfold apply_deactivate, in_win. rewrite <- V1, <- V2, <- V3, <- V4, <- V10, <- V11, <- Et.
@@ -90,7 +90,7 @@ Section Order.
 
   (* whole histories: the resolved state does not depend on the member order of any request *)
   Theorem run_member_order hist : forall hist' rm rm',
-    Forall2 op_rel hist hist' -> rm_rel rm rm' -> Forall (fun a => Forall dedicated (v_patches (a_view a))) hist ->
+    Forall2 op_rel hist hist' -> rm_rel rm rm' -> Forall (fun a => Forall order_blind (v_patches (a_view a))) hist ->
     rm_rel (run cfg apply_patches rm hist) (run cfg apply_patches rm' hist').
   Proof.
     induction hist as [|a r IH]; intros hist' rm rm' F Hr D; inversion F as [|? a' ? r' Ra Fr]; subst; cbn [run fold_left]; [exact Hr|].
